@@ -296,6 +296,10 @@ func TestC03(t *testing.T) {
 		rec.Eval()
 		classifyProg(rec, p)
 		meta := c03Meta{Want: wantKeys(p)}
+		// functions the setup file declares itself are carried over
+		if setup, ok := files.Get(pg.SetupPath); ok {
+			meta.Pre, _ = funcKeys(setup)
+		}
 		v, class := c03Judge(env, files, meta)
 		rec.Class("outcome:" + class)
 		var kinds []string
